@@ -46,16 +46,20 @@ def plan(tier, seed):
     ms = [o for o in ms if any(x[0] == "I" for x in o) and any(x[0] == "F" for x in o)] + [()]
     for a in ms:
         cases.append({"mode": "pairs", "ops": fsm.ops_json(a), "labels": labels, "nstates": ns})
+    dense = dense_cases(tier)
+    cases += dense
     return {
         "cases": cases,
-        "states": nstates + len(ms),
-        "transitions": ntrans + tr,
+        "states": nstates + len(ms) + len(dense),
+        "transitions": ntrans + tr + sum(2 * c["n"] ** 2 for c in dense),
         "chunk": 20,
         "rule": (
             f"E1: A ranges over every automaton reachable by add_I/add_F/add_arc in the spaces {p['spaces']} with weights from the rational alphabet {[str(x) for x in ALPH]} (as floats in the library, as Fractions in the oracle); "
             "B ranges over every one-step mutation of A (one weight changed to the next alphabet value or doubled, one arc removed / relabelled / added) and over the language-preserving images epsremove, reverse.reverse, push, trim, renumber, A+zero, one*A, A.min; "
             f"pairs mode: all ordered pairs of the {len(ms)} one-state machines. Oracle: exact equivalence over the rationals (decides all strings): counterexample is None <=> equivalent; a returned counterexample is flattened and re-evaluated exactly on both machines "
             "(must reproduce the two reported weights and differ); == and hash agree with equivalence; min terminates (watchdog 5 s + one retry), A.min agrees with A on every string of length < dim(A)+dim(min) (sufficient for equivalence), A.min.dim == exact Hankel rank. "
+            f"dense mode: {len(dense)} DENSE automata (every arc present) over {{a,b}} with 3..6 states and integer weights 1..20 given by a grid of index formulas, plus copies with one state duplicated "
+            "(rank < number of states): min.dim == exact Hankel rank <= number of states, min equivalent on all strings <= 3, counterexample(A, A.min) is None. "
             "non-trivial = A has an accepting path"
         ),
         "bounds": {k: v for k, v in p.items()},
@@ -278,5 +282,68 @@ def run_pairs(case):
     return {"evals": evals, "nontrivial": 1, "fails": fails, "counters": {"executions": evals}}
 
 
+def dense_cases(tier):
+    out = []
+    sizes = (3, 4, 5, 6)
+    grid = [(7, 3, 5), (1, 1, 1), (2, 5, 11), (13, 7, 3)] if tier == "thorough" else [(7, 3, 5), (2, 5, 11)]
+    for n in sizes:
+        for (p, q, r) in grid:
+            for dup in (False, True):
+                out.append({"mode": "dense", "n": n, "coef": [p, q, r], "dup": dup})
+    return out
+
+
+def dense_weight(coef, i, a, j):
+    p, q, r = coef
+    return 1 + (p * i + q * j + r * a + i * j + (i + 1) * (j + 2) * (a + 1)) % 20
+
+
+def run_dense(case):
+    """Dense automata with integer weights 1..20: forward/backward vectors grow to ~1e8 within dim steps, so
+    an ABSOLUTE redundancy test in the basis construction is wrong here although every weight is moderate."""
+    n, coef, dup = case["n"], case["coef"], case["dup"]
+    SY = ["a", "b"]
+    # with dup: the last state is a copy of state 0's outgoing behaviour -> rank drops below n
+    src = lambda i: 0 if (dup and i == n - 1) else i  # noqa: E731
+    ops = [("I", 0)]
+    W = [Fraction(1)]
+    for i in range(n):
+        for ai, a in enumerate(SY):
+            for j in range(n):
+                ops.append(("A", i, a, j))
+                W.append(Fraction(dense_weight(coef, src(i), ai, j)))
+    ops.append(("F", n - 1))
+    W.append(Fraction(1))
+    if dup:
+        ops.append(("F", 0))
+        W.append(Fraction(1))
+    ops = tuple(ops)
+    inp0 = {"dense": case}
+    fails = []
+    evals = 0
+    mA = to_matrices(fsm.data(ops, W))
+    a = lib(ops, W)
+    mn = guarded(lambda: a.min, limit=20)
+    evals += 1
+    if isinstance(mn, str):
+        fails.append(_fail("min: terminates and returns an automaton (dense integer weights)", inp0, mn, "automaton"))
+        return {"evals": evals, "nontrivial": 1, "fails": fails, "counters": {"executions": evals}}
+    want_dim = hankel_rank(mA, SY, n - 1)  # words shorter than the number of states suffice on both sides
+    if mn.dim != want_dim:
+        fails.append(_fail("min: number of states == rank of the Hankel matrix (dense integer weights)", inp0, mn.dim, want_dim))
+    for x in strings_upto(SY, 3):
+        hv = guarded(lambda: mn(x))
+        wv = mat_weight(mA, x)
+        evals += 1
+        if isinstance(hv, str) or abs(float(hv) - float(wv)) > 1e-6 * max(1.0, abs(float(wv))):
+            fails.append(_fail("min: equivalent to the input (dense integer weights)", dict(inp0, x=list(x)), hv, wv))
+            break
+    ce = guarded(lambda: lib(ops, W).counterexample(mn))
+    evals += 1
+    if ce is not None:
+        fails.append(_fail("counterexample(A, A.min) is None (dense integer weights)", inp0, ce, None))
+    return {"evals": evals, "nontrivial": 1, "fails": fails, "counters": {"executions": evals, "dense_max_dim": n, "dense_rank_deficient": int(want_dim < n)}}
+
+
 def run_case(case):
-    return {"mut": run_mut, "pairs": run_pairs}[case["mode"]](case)
+    return {"mut": run_mut, "pairs": run_pairs, "dense": run_dense}[case["mode"]](case)
